@@ -268,3 +268,25 @@ Theorem eviction_witness :
   w_next 61 (fst (w_flood (snd (fst w_state)) 61 1000 32)) = true /\
   w_next 59 (fst (w_flood (snd (fst w_state)) 59 1000 33)) = true.
 Proof. split; [exact toy_ok|]. vm_compute. repeat split. Qed.
+
+(* the sending side has the same table: a sender with more than 32 SSRCs evicts a stream idle for 60 s
+   and restarts it at ROC 0, which the (untouched) receiver refuses *)
+Fixpoint w_tx_flood (tx : session) (now ssrc : Z) (n : nat) : session :=
+  match n with
+  | O => tx
+  | S n' => w_tx_flood (snd (sess_protect_rtp toy tx now (w_pkt ssrc 1))) now (ssrc + 1) n'
+  end.
+
+Definition w_tx_next (now : Z) (tx rx : session) : bool :=
+  match fst (sess_protect_rtp toy tx now (w_pkt 77 11)) with
+  | Ok raw => match spkt_parse raw with Some sp => is_ok (fst (sess_unprotect_rtp toy rx now sp)) | None => false end
+  | _ => false
+  end.
+
+Theorem tx_eviction_witness :
+  let tx := fst (fst w_state) in let rx := snd (fst w_state) in
+  w_tx_next 61 tx rx = true /\
+  w_tx_next 61 (w_tx_flood tx 61 2000 33) rx = false /\
+  w_tx_next 61 (w_tx_flood tx 61 2000 32) rx = true /\
+  w_tx_next 59 (w_tx_flood tx 59 2000 33) rx = true.
+Proof. vm_compute. repeat split. Qed.
